@@ -110,7 +110,7 @@ fn untagged(layout: &Layout) -> HashMap<String, Vec<SlotRange>> {
 // ---------- fake network ----------
 pub type Log = Arc<Mutex<Vec<(String, Vec<Option<Vec<u8>>>)>>>;
 
-fn upper(b: &[u8]) -> Vec<u8> {
+pub fn upper(b: &[u8]) -> Vec<u8> {
     b.iter().map(|x| x.to_ascii_uppercase()).collect()
 }
 
@@ -175,31 +175,62 @@ impl ConnFactory for FakeConnFactory {
     }
 }
 
-pub struct NullClient;
-impl RedisClient for NullClient {
+// Control connections of the migration tasks (UMCTL PRECHECK / PRESWITCH / FINALSWITCH to the peer proxy, SCAN on the source
+// node).  `level` pins the migrating (source) task: 0 = everything fails (the task stays in PreCheck; this is the old
+// NullClient), 1 = PRECHECK is accepted (-> PreBlocking -> PreSwitch), 2 = PRESWITCH accepted (-> Scanning, the SCAN keeps
+// answering a non-zero cursor), 3 = the SCAN finishes (-> FinalSwitch), 4 = FINALSWITCH accepted (-> SwitchCommitted).
+pub struct GatedClient {
+    level: Arc<std::sync::atomic::AtomicUsize>,
+}
+impl GatedClient {
+    fn answer(&self, cmd: &[BinSafeStr]) -> RespVec {
+        let level = self.level.load(std::sync::atomic::Ordering::SeqCst);
+        if level == 0 {
+            return Resp::Error(b"ERR fake".to_vec());
+        }
+        let name = cmd.get(0).map(|c| upper(c)).unwrap_or_default();
+        let sub = cmd.get(1).map(|c| upper(c)).unwrap_or_default();
+        let ok = Resp::Simple(b"OK".to_vec());
+        let gate = |need: usize| if level >= need { ok.clone() } else { Resp::Error(b"ERR gate".to_vec()) };
+        match (name.as_slice(), sub.as_slice()) {
+            (b"UMCTL", b"PRECHECK") => gate(1),
+            (b"UMCTL", b"PRESWITCH") => gate(2),
+            (b"UMCTL", b"FINALSWITCH") => gate(4),
+            (b"SCAN", _) => {
+                let cursor: &[u8] = if level >= 3 { b"0" } else { b"7" };
+                Resp::Arr(Array::Arr(vec![
+                    Resp::Bulk(BulkStr::Str(cursor.to_vec())),
+                    Resp::Arr(Array::Arr(vec![])),
+                ]))
+            }
+            _ => ok,
+        }
+    }
+}
+impl RedisClient for GatedClient {
     fn execute<'s>(
         &'s mut self,
         command: OptionalMulti<Vec<BinSafeStr>>,
     ) -> Pin<Box<dyn Future<Output = Result<OptionalMulti<RespVec>, RedisClientError>> + Send + 's>>
     {
-        // control connections (migration tasks): every request fails, so a task never leaves its first phase by itself
         let res = match command {
-            OptionalMulti::Single(_) => OptionalMulti::Single(Resp::Error(b"ERR fake".to_vec())),
-            OptionalMulti::Multi(cs) => {
-                OptionalMulti::Multi(cs.iter().map(|_| Resp::Error(b"ERR fake".to_vec())).collect())
-            }
+            OptionalMulti::Single(c) => OptionalMulti::Single(self.answer(&c)),
+            OptionalMulti::Multi(cs) => OptionalMulti::Multi(cs.iter().map(|c| self.answer(c)).collect()),
         };
         Box::pin(async move { Ok(res) })
     }
 }
-pub struct NullClientFactory;
+pub struct NullClientFactory {
+    pub level: Arc<std::sync::atomic::AtomicUsize>,
+}
 impl RedisClientFactory for NullClientFactory {
-    type Client = NullClient;
+    type Client = GatedClient;
     fn create_client<'s>(
         &'s self,
         _address: String,
     ) -> Pin<Box<dyn Future<Output = Result<Self::Client, RedisClientError>> + Send + 's>> {
-        Box::pin(async move { Ok(NullClient) })
+        let level = self.level.clone();
+        Box::pin(async move { Ok(GatedClient { level }) })
     }
 }
 
@@ -208,6 +239,7 @@ pub type Handler = SharedForwardHandler<NullClientFactory, FakeConnFactory>;
 pub struct Proxy {
     pub handler: Handler,
     pub log: Log,
+    pub gate: Arc<std::sync::atomic::AtomicUsize>,
 }
 
 pub struct Cfg {
@@ -261,20 +293,21 @@ pub fn new_proxy(cfg: &Cfg) -> Proxy {
         command_cluster_nodes_version: if cfg.v1 { ClusterNodesVersion::V1 } else { ClusterNodesVersion::V2 },
     });
     let log: Log = Arc::new(Mutex::new(vec![]));
+    let gate = Arc::new(std::sync::atomic::AtomicUsize::new(0));
     let conn_factory = Arc::new(FakeConnFactory { log: log.clone() });
     let meta_map = Arc::new(ArcSwap::new(Arc::new(MetaMap::empty())));
     let (stopped, rx) = mpsc::unbounded();
     std::mem::forget(rx);
     let handler = SharedForwardHandler::new(
         config.clone(),
-        Arc::new(NullClientFactory),
+        Arc::new(NullClientFactory { level: gate.clone() }),
         Arc::new(SlowRequestLogger::new(config)),
         meta_map,
         conn_factory,
         Arc::new(TrackedFutureRegistry::default()),
         stopped,
     );
-    Proxy { handler, log }
+    Proxy { handler, log, gate }
 }
 
 pub enum Sent {
@@ -309,6 +342,17 @@ pub async fn set_cluster(
     local: HashMap<String, Vec<SlotRange>>,
     peer: HashMap<String, Vec<SlotRange>>,
 ) -> String {
+    set_cluster_cfg(handler, compressed, epoch, local, peer, ClusterConfig::default()).await
+}
+
+pub async fn set_cluster_cfg(
+    handler: &Handler,
+    compressed: bool,
+    epoch: u64,
+    local: HashMap<String, Vec<SlotRange>>,
+    peer: HashMap<String, Vec<SlotRange>>,
+    cluster_config: ClusterConfig,
+) -> String {
     let meta = ProxyClusterMeta::new(
         epoch,
         ClusterMapFlags {
@@ -318,7 +362,7 @@ pub async fn set_cluster(
         ClusterName::try_from("vc").expect("name"),
         local,
         peer,
-        ClusterConfig::default(),
+        cluster_config,
     );
     let args = if compressed {
         meta.to_compressed_args().expect("compress")
@@ -501,7 +545,7 @@ pub fn run_case(rt: &tokio::runtime::Runtime, line: &str) -> String {
             format!("fromranges {}", rle(&owners))
         }
         "route" => run_route(rt, &toks[1..]),
-        k if k == "nodes" || k == "pnodes" => crate::topo::run_case(rt, &toks),
+        k if k == "nodes" || k == "pnodes" || k == "seq" => crate::topo::run_case(rt, &toks),
         k => format!("unknown-kind {}", k),
     }
 }
